@@ -117,8 +117,34 @@ def default_tol(sysd):
     return 100 * EPS * m
 
 
+def swap_systems():
+    """an imbalance that cancels over a dimension: two entries of the return flow to the system environment swapped between the items
+    of 'a'.  The inner processes do not see it (one of their contributions has no 'a': their balance is summed over it), the system
+    environment does (all its contributions carry 'a').  With and without a stock at the last process."""
+    uni = mk_universe((3, 2, 2), "tab")
+    out = []
+    for with_stock in (True, False):
+        for delta in (3, Fraction(1, 4)):
+            ta = [10 + 3 * i for i in range(6)]                      # over (t, a)
+            t_ = [ta[2 * i] + ta[2 * i + 1] for i in range(3)]       # summed over a
+            back = list(ta)
+            back[0], back[1] = Fraction(back[0]) + delta, Fraction(back[1]) - delta
+            flows = [dict(name="f0 sysenv => p1", frm="sysenv", to="p1", arr=dict(dims=["t", "a"], values=[str(v) for v in ta])),
+                     dict(name="f1 p1 => p2", frm="p1", to="p2", arr=dict(dims=["t"], values=[str(v) for v in t_])),
+                     dict(name="f2 p2 => sysenv", frm="p2", to="sysenv", arr=dict(dims=["t", "a"], values=[str(v) for v in back]))]
+            stocks = []
+            if with_stock:
+                z = [0] * 6
+                stocks.append(dict(name="stock0", proc="p2", dims=["t", "a"], inflow=[2] * 6, outflow=[2] * 6, stock=z))
+            out.append(dict(uni=uni, procs=["sysenv", "p1", "p2"], flows=flows, stocks=stocks, dominant=False))
+    return out
+
+
 def generate(tier, rng):
     cases = []
+    for sysd in swap_systems():
+        for tol in (None, str(Fraction(1, 2 ** 20))):
+            cases.append(dict(stream="exact", mode="swap", sys=sysd, tol=tol, exceptions=[], compare_balances=True))
     n = 120 if tier == "quick" else 1200
     for k in range(n):
         base = gen_system(rng, k)
@@ -304,6 +330,25 @@ def run_impl(case):
                 out[f"cf_{mode}"] = dict(kind="crashed", exc=type(e).__name__, msg=str(e)[:80])
             except Exception as e:  # noqa
                 out[f"cf_{mode}"] = dict(kind="raised", msg=str(e)[:120])
+        # the same call again, with the SAME list object, and with the default argument twice: every call flags by itself, and the
+        # caller's list is the caller's
+        try:
+            exc_list = list(case["exceptions"])
+            fnames = [f["name"] for f in sysd["flows"]]
+            rounds = []
+            for _ in range(2):
+                cap = LogCapture()
+                with cap:
+                    mfa.check_flows(exceptions=exc_list, raise_error=False, verbose=False)
+                rounds.append(sorted(_flagged(cap.warnings, fnames)))
+            for _ in range(2):
+                cap = LogCapture()
+                with cap:
+                    mfa.check_flows(raise_error=False)
+                rounds.append(sorted(_flagged(cap.warnings, fnames)))
+            out["cf_again"] = dict(rounds=rounds, list_unchanged=(exc_list == list(case["exceptions"])))
+        except Exception as e:  # noqa
+            out["cf_again"] = dict(error=type(e).__name__ + ": " + str(e)[:80])
         try:
             bal = mfa._get_mass_balance()
             out["balances"] = {p: (dict(dims=obs_dims(b.dims), values=observe_values(b.values)) if hasattr(b, "values") else None)
@@ -371,6 +416,17 @@ def expected(case):
     return failing, flagged_nan, flagged_neg
 
 
+def _all_bad(case):
+    """the flows that contain NaN or an entry below minus the (default) tolerance, no exceptions"""
+    sysd = case["sys"]
+    out = []
+    for f in sysd["flows"]:
+        vs = [None if v == "nan" else Fraction(v) for v in f["arr"]["values"]]
+        if any(v is None for v in vs) or any(v is not None and v < -default_tol(sysd) for v in vs):
+            out.append(f["name"])
+    return out
+
+
 def oracle(case, obs):
     o = obs["value"]
     failing, fnan, fneg = expected(case)
@@ -393,6 +449,19 @@ def oracle(case, obs):
         return f"check_flows(raise_error=False) {r['kind']}: {r.get('exc')}: {r.get('msg')} {desc}"
     if sorted(r["nan"]) != sorted(fnan) or sorted(r["neg"]) != sorted(fneg):
         return f"check_flows flags NaN {r['nan']} / negative {r['neg']}, expected NaN {fnan} / negative {fneg} {desc}"
+    ag = o.get("cf_again")
+    if ag is not None:
+        if "error" in ag:
+            return f"a repeated check_flows(raise_error=False) raised {ag['error']} {desc}"
+        if not ag["list_unchanged"]:
+            return f"check_flows changed the exception list it was given {desc}"
+        if ag["rounds"][0] != ag["rounds"][1]:
+            return f"check_flows called twice with the same exception list flags {ag['rounds'][0]} the first and {ag['rounds'][1]} the second time {desc}"
+        if ag["rounds"][2] != ag["rounds"][3]:
+            return f"check_flows() called twice flags {ag['rounds'][2]} the first and {ag['rounds'][3]} the second time {desc}"
+        every = sorted(set(_all_bad(case)))
+        if ag["rounds"][3] != every:
+            return f"check_flows() without exceptions flags {ag['rounds'][3]}, the flows with NaN or an entry below minus the tolerance are {every} {desc}"
     r = o["cf_True"]
     if (fnan or fneg) and r["kind"] != "raised":
         return f"check_flows(raise_error=True) did not raise ({r['kind']}) although flows {fnan + fneg} must be flagged {desc}"
